@@ -89,6 +89,98 @@ func unmanagedGateSites(p *Prog, m *Model) (gated map[ssa.Instruction]bool, gate
 	return
 }
 
+// ruleGateAfterChecks: R06.7 — the gate is evaluated after every phase that can
+// record an unmanaged finding.
+func ruleGateAfterChecks(p *Prog, m *Model, r *Report) {
+	r.rule("R06.7", "Let M be the RealDevice methods some implementation of which (transitively) stores into its unmanaged-findings field (LoadDevice for ASA/IOS/Linux, GetChanges for PAN-OS). In the function that tests GetErrUnmanaged() before applying, every call that can reach a method of M dominates the GetErrUnmanaged() call (it happens before the gate on every path), and no such call is reachable after it. Otherwise a finding recorded later never stops the run.")
+	cg := p.CG()
+	// methods that can store into an unmanaged field
+	recording := map[*ssa.Function]string{}
+	for _, t := range m.Impls {
+		fields := map[*types.Var]string{}
+		errSliceFields(t, "", fields)
+		storeFns := map[*ssa.Function]bool{}
+		for fv := range fields {
+			for _, st := range storesToField(p, fv) {
+				f := st.Parent()
+				for f.Parent() != nil {
+					f = f.Parent()
+				}
+				storeFns[st.Parent()] = true
+				storeFns[f] = true
+			}
+		}
+		if len(storeFns) == 0 {
+			continue
+		}
+		iface := m.Iface.Underlying().(*types.Interface)
+		for i := 0; i < iface.NumMethods(); i++ {
+			name := iface.Method(i).Name()
+			if name == "GetErrUnmanaged" {
+				continue
+			}
+			sel := p.SSA.MethodSets.MethodSet(t).Lookup(iface.Method(i).Pkg(), name)
+			fn := p.SSA.MethodValue(sel)
+			reach := reachFrom(cg, []*ssa.Function{fn}, nil)
+			for sf := range storeFns {
+				if reach[sf] {
+					recording[fn] = typeShort(t) + "." + name
+				}
+			}
+		}
+	}
+	r.floor("R06.7", "methods that record unmanaged findings", len(recording), 4)
+	gates := 0
+	for _, fn := range allModFuncs(p) {
+		for _, cs := range callsOf(fn) {
+			if !(cs.Method != nil && cs.Method.Name() == "GetErrUnmanaged") {
+				continue
+			}
+			// only gates that guard an apply: the function must reach ApplyCommands
+			reachesApply := false
+			rf := reachFrom(cg, []*ssa.Function{fn}, nil)
+			for f := range applyImpls(m) {
+				if rf[f] {
+					reachesApply = true
+				}
+			}
+			if !reachesApply {
+				continue
+			}
+			gates++
+			for _, other := range callsOf(fn) {
+				if other == cs || other.In == cs.In {
+					continue
+				}
+				var callees []*ssa.Function
+				if n := cg.Nodes[fn]; n != nil {
+					for _, e := range n.Out {
+						if e.Site == other.In {
+							callees = append(callees, e.Callee.Func)
+						}
+					}
+				}
+				rr := reachFrom(cg, callees, nil)
+				var hits []string
+				for rec, name := range recording {
+					if rr[rec] {
+						hits = append(hits, name)
+					}
+				}
+				if len(hits) == 0 {
+					continue
+				}
+				sort.Strings(hits)
+				ok := idom(other.In, cs.In) && !ireach(cs.In, other.In)
+				r.add("R06.7", "check-before-gate|"+shortName(fn)+"|"+other.calleeName(), p.ipos(other.In),
+					fmt.Sprintf("call of %s (can record findings via %s) happens before the gate", other.calleeName(), strings.Join(hits, ", ")), ok,
+					"findings recorded by this phase come after GetErrUnmanaged() was tested: an unmanaged device is changed")
+			}
+		}
+	}
+	r.floor("R06.7", "gates guarding an apply", gates, 1)
+}
+
 func applyImpls(m *Model) map[*ssa.Function]bool {
 	s := map[*ssa.Function]bool{}
 	for _, f := range m.Methods["ApplyCommands"] {
@@ -1010,6 +1102,7 @@ func checkC06(p *Prog, r *Report) {
 	}
 	checkImplsMatchFactory(p, m, r)
 	ruleGateDominatesApply(p, m, r)
+	ruleGateAfterChecks(p, m, r)
 	uf := ruleGateSeesChecks(p, m, r)
 	ruleChecksOnLoadPath(p, m, r, uf)
 	ruleOptionalBanner(p, m, r)
